@@ -202,7 +202,10 @@ def generate(seed, tier, idx=0):
             ops.append([op, rng.random(), rng.random()])
         else:
             ops.append([op])
-    return {"ttype": ttype, "ops": ops}
+    case = {"ttype": ttype, "ops": ops}
+    if rng.random() < 0.05:
+        case["id_offset"] = rng.choice([2 ** 31, 2 ** 32, 2 ** 63, 2 ** 64]) - rng.randint(1, 12)
+    return case
 
 
 def _other_simulator_initialized():
@@ -235,7 +238,7 @@ def key_of(ev):
 def run_history(case):
     """Execute the history on a real list and on the reference; returns
     (finding or None, info)."""
-    SimEvent._SimEvent__event_counter = 0
+    SimEvent._SimEvent__event_counter = case.get("id_offset", 0)
     for cls in (SubEvent, SubEvent2):
         # should a subclass have grown a counter of its own, start it afresh
         # too, so that a run does not depend on earlier runs in this process
